@@ -15,6 +15,7 @@ pub const FLOORS: &[&str] = &[
     "paused_on_directive_break", "paused_on_runtime_break", "paused_at_halt", "paused_outside_user_space",
     "paused_at_ffff", "ended_by_quit", "ended_by_eof", "end:returned", "end:exit_238", "end:exit_1",
     "malformed_command_in_script", "blank_command_in_script", "feature:loop", "feature:self_modify", "feature:nested_call",
+    "output:minimal", "output:decorated", "long_label", "break_table_with_long_label",
 ];
 
 const FUEL: u64 = 15_000;
@@ -96,13 +97,14 @@ struct Plain {
     fs: crate::exec::FinalState,
 }
 
-fn plain_run(text: &str, stack: bool, input: &[u8]) -> Option<Plain> {
+fn plain_run(text: &str, stack: bool, input: &[u8], minimal: bool) -> Option<Plain> {
     let t = text.to_string();
     let inp = input.to_vec();
     std::thread::scope(|s| {
         std::thread::Builder::new()
             .stack_size(8 << 20)
             .spawn_scoped(s, move || {
+                crate::exec::case_minimal(minimal);
                 let (mut env, _) = build_env(&t, stack, None).ok()?;
                 let obs = run_env(
                     &mut env,
@@ -142,7 +144,23 @@ fn one_case(seed: u64, i: u64) -> CaseOut {
         tame_endings: rng.chance(1, 2),
         ..Default::default()
     };
-    let built = gen_structured(&mut rng, &o);
+    let mut built = gen_structured(&mut rng, &o);
+    // the comparison is about program output and machine state, not debugger text: a third of the
+    // sessions use the decorated output mode, whose tables and listings are separate code paths
+    let minimal = !rng.chance(1, 3);
+    crate::exec::case_minimal(minimal);
+    out.class(if minimal { "output:minimal" } else { "output:decorated" });
+    // a label longer than any column of the debugger's tables
+    let mut long_label: Option<&str> = None;
+    if rng.chance(1, 4) {
+        let names: Vec<String> = built.program.items.iter().filter_map(|it| match it { Item::Stmt { label: Some(l), .. } => Some(l.clone()), _ => None }).collect();
+        if let Some(old) = names.first() {
+            let new = "a_rather_long_label_name_for_a_statement";
+            rename_label(&mut built.program, old, new);
+            long_label = Some(new);
+            out.class("long_label");
+        }
+    }
     let img = match encode(&built.program) {
         Verdict::Accept(img) => img,
         _ => {
@@ -165,6 +183,14 @@ fn one_case(seed: u64, i: u64) -> CaseOut {
         any_malformed |= m;
         lines.push(l);
     }
+    if let Some(l) = long_label {
+        let at = rng.below(lines.len() as u64 + 1) as usize;
+        lines.insert(at, format!("break add {}", l));
+        lines.insert((at + 1 + rng.below(2) as usize).min(lines.len()), "break list".to_string());
+        if !minimal {
+            out.class("break_table_with_long_label");
+        }
+    }
     let by_quit = rng.bool();
     if by_quit {
         lines.push(rng.s(&["quit", "q", "QUIT"]).to_string());
@@ -184,7 +210,7 @@ fn one_case(seed: u64, i: u64) -> CaseOut {
         lines.join(sep)
     };
 
-    let Some(plain) = plain_run(&text, stack, &built.input) else {
+    let Some(plain) = plain_run(&text, stack, &built.input, minimal) else {
         out.inconclusive = Some("plain run could not be set up".into());
         return out;
     };
